@@ -73,6 +73,15 @@ theorem runAction_spec (env : Env) (it j : Bool) (es : ES) (a : Action) :
     simp only [List.mem_singleton] at ho
     subst ho
     exact ⟨rfl, rfl, Or.inr (Or.inr (Or.inr (Or.inl rfl))), by simp, by simp⟩
+  | rpanic =>
+    simp only [runAction]
+    split
+    · exact ⟨[], by simp⟩
+    · refine ⟨[⟨env.mi, .pan, some (if it then 1 else 0), some (if j then 1 else 0), env.now⟩], rfl, ?_, by simp [isDwn], by simp [isPan]⟩
+      intro o ho
+      simp only [List.mem_singleton] at ho
+      subst ho
+      exact ⟨rfl, rfl, Or.inr (Or.inr (Or.inr (Or.inl rfl))), by simp, by simp⟩
   | log n =>
     refine ⟨[⟨env.mi, .log, some n, none, env.now⟩], rfl, ?_, by simp [runAction, isDwn], by simp [runAction, isPan]⟩
     intro o ho
